@@ -187,7 +187,12 @@ func (c *Collection) CreateColumn(columnName string, column Column) error {
 	}
 
 	column.Grow(capacity)
+	c.lock.Lock()
+	if n := len(c.commits); n > 0 {
+		column.Grow(commit.Chunk(n - 1).Max()) // cover every chunk that already exists
+	}
 	c.cols.Store(columnName, columnFor(columnName, column))
+	c.lock.Unlock()
 
 	// If necessary, create a primary key column
 	if pk, ok := column.(*columnKey); ok {
